@@ -1,2 +1,3 @@
 pub mod logsim;
 pub mod routersim;
+pub mod streamsim;
